@@ -198,7 +198,10 @@ func (rt *ResultTypeExpr) useExplicitView() {
 	if view, ok := rt.AttributeExpr.Meta.Last(ViewMetaKey); ok {
 		p, err := Project(rt, view)
 		if err != nil {
-			panic(err) // bug - presence of view meta should have been validated before
+			// Unknown views are reported during validation for the result
+			// types used by methods, a result type that is not used is left
+			// as is.
+			return
 		}
 		*rt = *p
 	}
